@@ -20,30 +20,30 @@ ASSUMPTIONS = [
 KNOWN_ROLE = {('C03', 'unchanged_tree_is_skipped', 'same_command_text_in_two_dirs'): 'same_cmd_text'}
 
 
-def native_confirm(prop, res, sc):
+def native_confirm(prop, res, sc, repo='/repo'):
     """Replay a sat obligation natively. Returns (confirmed, observations)."""
     worlds = res['world']
     name = res['name']
     if name in ('skipped_only_if_recorded_and_unchanged', 'no_record_no_skip', 'failed_or_cancelled_never_skipped'):
         mode = 'ok' if res.get('script_result', 0) == 0 else 'fail'
-        obs = incr_native.replay_runs(sc, worlds, [{'epoch': 1, 'mode': mode}, {'epoch': 2, 'mode': 'ok'}])
+        obs = incr_native.replay_runs(sc, worlds, [{'epoch': 1, 'mode': mode}, {'epoch': 2, 'mode': 'ok'}], repo)
         return (obs[1]['skipped'] and not obs[1]['script_spawned']), obs
     if name in ('unchanged_tree_is_skipped', 'record_stored_after_success'):
-        obs = incr_native.replay_runs(sc, worlds, [{'epoch': 1, 'mode': 'ok'}, {'epoch': 2, 'mode': 'ok'}])
+        obs = incr_native.replay_runs(sc, worlds, [{'epoch': 1, 'mode': 'ok'}, {'epoch': 2, 'mode': 'ok'}], repo)
         if name == 'record_stored_after_success':
             return (obs[0]['rc'] == 0 and not obs[0]['state_file_exists']), obs
         if obs[0]['rc'] == 0 and obs[1]['script_spawned']:
             return True, obs
         # second attempt: the script itself changes the tree while it runs (epoch 0 -> 1), nothing changes afterwards
         if not any(d != '/p' for c, d in sc.in_cmds):
-            obs2 = incr_native.replay_runs(sc, worlds, [{'epoch': 1, 'mode': 'ok_changing', 'epoch_before': 0}, {'epoch': 2, 'mode': 'ok', 'keep_tree': True}])
+            obs2 = incr_native.replay_runs(sc, worlds, [{'epoch': 1, 'mode': 'ok_changing', 'epoch_before': 0}, {'epoch': 2, 'mode': 'ok', 'keep_tree': True}], repo)
             return (obs2[0]['rc'] == 0 and obs2[1]['script_spawned']), obs + obs2
         return False, obs
     if name == 'death_between_decision_and_complete_write_never_skipped':
-        obs = incr_native.replay_runs(sc, worlds, [{'epoch': 1, 'mode': 'ok'}, {'epoch': 2, 'mode': 'crash_in_script'}, {'epoch': 4, 'mode': 'ok'}])
+        obs = incr_native.replay_runs(sc, worlds, [{'epoch': 1, 'mode': 'ok'}, {'epoch': 2, 'mode': 'crash_in_script'}, {'epoch': 4, 'mode': 'ok'}], repo)
         return (obs[1]['rc'] == 77 and obs[2]['skipped'] and not obs[2]['script_spawned']), obs
     if name == 'second_run_result_is_ok':
-        obs = incr_native.replay_runs(sc, worlds, [{'epoch': 1, 'mode': 'ok'}, {'epoch': 2, 'mode': 'ok'}])
+        obs = incr_native.replay_runs(sc, worlds, [{'epoch': 1, 'mode': 'ok'}, {'epoch': 2, 'mode': 'ok'}], repo)
         return (obs[1]['rc'] not in (0,)), obs
     return False, []
 
@@ -83,7 +83,7 @@ def run(prop, tier, seed, repo, jobs):
             rpath = os.path.join(common.REPLAYS, '%s-%s-%s.json' % (prop, sc.name, ob['name']))
             os.makedirs(common.REPLAYS, exist_ok=True)
             try:
-                confirmed, obs = native_confirm(prop, ob, sc)
+                confirmed, obs = native_confirm(prop, ob, sc, repo)
             except Exception as e:   # pragma: no cover
                 confirmed, obs = False, [{'error': str(e)}]
             json.dump({'kind': 'incr', 'property': prop, 'scenario': sc.name, 'obligation': ob, 'native': obs, 'confirmed': confirmed}, open(rpath, 'w'), indent=1, default=str)
